@@ -42,31 +42,31 @@ func envOr(k, d string) string {
 }
 
 type TierCfg struct {
-	Params    map[string]int `json:"params"`
-	Unwind    int            `json:"unwind"`
-	MaxPaths  int            `json:"max_paths"`
-	TimeoutS  int            `json:"timeout_s"`  // wall budget for the harness
-	SolverMs  int            `json:"solver_ms"`
-	Skip      bool           `json:"skip"`
-	MaxSteps  int            `json:"max_steps"`
-	MaxDepth  int            `json:"max_depth"`
+	Params   map[string]int `json:"params"`
+	Unwind   int            `json:"unwind"`
+	MaxPaths int            `json:"max_paths"`
+	TimeoutS int            `json:"timeout_s"` // wall budget for the harness
+	SolverMs int            `json:"solver_ms"`
+	Skip     bool           `json:"skip"`
+	MaxSteps int            `json:"max_steps"`
+	MaxDepth int            `json:"max_depth"`
 }
 
 type HarnessPlan struct {
-	Name       string            `json:"name"`
-	Pkg        string            `json:"pkg"`   // repo-relative package dir, e.g. services/decoder
-	Entry      string            `json:"entry"` // function name
-	Replace    map[string]string `json:"replace"`
-	Init       []string          `json:"init"`   // extra packages whose init runs
-	Opaque     []string          `json:"opaque"` // opaque package prefixes
-	Quick      TierCfg           `json:"quick"`
-	Thorough   TierCfg           `json:"thorough"`
-	UnwindIsBug bool             `json:"unwind_is_bug"`
-	Bounds     string            `json:"bounds"`  // human description of the bounds
-	Encodes    []string          `json:"encodes"` // honeytrap functions this harness is about
-	Assumes    []string          `json:"assumes"`
-	NoReplay   string            `json:"no_replay"` // reason when a native replay is impossible
-	ArithHint  bool              `json:"arith_hint"`
+	Name        string            `json:"name"`
+	Pkg         string            `json:"pkg"`   // repo-relative package dir, e.g. services/decoder
+	Entry       string            `json:"entry"` // function name
+	Replace     map[string]string `json:"replace"`
+	Init        []string          `json:"init"`   // extra packages whose init runs
+	Opaque      []string          `json:"opaque"` // opaque package prefixes
+	Quick       TierCfg           `json:"quick"`
+	Thorough    TierCfg           `json:"thorough"`
+	UnwindIsBug bool              `json:"unwind_is_bug"`
+	Bounds      string            `json:"bounds"`  // human description of the bounds
+	Encodes     []string          `json:"encodes"` // honeytrap functions this harness is about
+	Assumes     []string          `json:"assumes"`
+	NoReplay    string            `json:"no_replay"` // reason when a native replay is impossible
+	ArithHint   bool              `json:"arith_hint"`
 }
 
 type Plan struct {
@@ -298,10 +298,10 @@ func cmdCheck(args []string) int {
 	}
 
 	type hres struct {
-		plan HarnessPlan
-		rep  *sx.Report
-		viol []violation
-		kf   []string
+		plan  HarnessPlan
+		rep   *sx.Report
+		viol  []violation
+		kf    []string
 		incon []string
 	}
 	var results []hres
@@ -506,8 +506,8 @@ func cmdCheck(args []string) int {
 		cov := map[string]interface{}{
 			"explanation": "bounded symbolic execution of the real go/ssa of /repo (regenerated from the working tree on this run) by the gosx interpreter; every assertion reached on every feasible path is an SMT obligation (path-condition AND NOT assertion) decided by z3 4.8.12 with cvc5 / cvc5 --solve-bv-as-int / z3-new as fall-back on unknown; unsat on all paths = holds for every value within the stated bounds; sat = concrete model replayed natively (go test -overlay) before being reported",
 			"evaluations": totalObl, "distinct_nontrivial": distinct,
-			"rule":        "evaluations = solver obligations discharged (one per assertion reached per feasible path, not counting branch-feasibility queries); distinct_nontrivial = number of distinct feasible execution paths (distinct decision sequences) that reached at least one assertion",
-			"samples":     samples, "obligations": totalObl, "discharged": totalUnsat, "paths": totalPaths,
+			"rule":    "evaluations = solver obligations discharged (one per assertion reached per feasible path, not counting branch-feasibility queries); distinct_nontrivial = number of distinct feasible execution paths (distinct decision sequences) that reached at least one assertion",
+			"samples": samples, "obligations": totalObl, "discharged": totalUnsat, "paths": totalPaths,
 			"harnesses": hsum, "queries_by_solver": queries, "solver_time_s": solverTime, "load_and_ssa_build_s": loadDur.Seconds(),
 			"exhaustive": false, "outside_the_claim": plan.Outside,
 			"trusted_base": []string{"gosx interpreter (/verif/engine)", "golang.org/x/tools/go/ssa v0.29.0", "z3 4.8.12 / cvc5 1.0", "harness reference models and stubs listed under harnesses[].replaced"},
@@ -566,11 +566,11 @@ func matchKnown(known []KnownFinding, prop, harness, msg string) *KnownFinding {
 }
 
 type violation struct {
-	Harness      string     `json:"harness"`
-	Finding      sx.Finding `json:"finding"`
-	Dir          string     `json:"replay_dir"`
-	Reproduced   bool       `json:"reproduced"`
-	ReplayStatus string     `json:"replay_status"`
+	Harness      string       `json:"harness"`
+	Finding      sx.Finding   `json:"finding"`
+	Dir          string       `json:"replay_dir"`
+	Reproduced   bool         `json:"reproduced"`
+	ReplayStatus string       `json:"replay_status"`
 	Alternatives []sx.Finding `json:"-"`
 }
 
